@@ -276,7 +276,10 @@ func (h *Session) ReadFrom(b []byte) (int, net.Addr, error) {
 			}
 			continue
 		}
-		if h.closed {
+		h.mutex.RLock() // Close sets the flag under the session lock
+		closed := h.closed
+		h.mutex.RUnlock()
+		if closed {
 			return n, addr, ErrHandlerClosed
 		}
 		return n, addr, err
